@@ -325,6 +325,17 @@ def run(ctx):
                 many = [c for c in ch0.calls if c.name == "write_str" and len(c.args) == 2 and describe_operand(ch0, c.args[1]) == "'{'" and any(d == "self.has_attr" and l == "true" for d, l, _ in dom_guards(ch0, c.block))]
                 bw = [i for i, j, p_, rv, line in ch0.assigns() if describe_place(ch0, p_) == "self.brace_written" and rv[0] == "use" and rv[1][0] == "k" and rv[1][1].get("b") is True]
                 inv = bool(many) and any(ch0.dominates(c.block, i) for c in many for i in bw) and any(describe_rvalue(ch0, rv).startswith("Eq(num_items, 1)") or "num_items" in describe_rvalue(ch0, rv) for i, j, p_, rv, line in ch0.assigns() if describe_place(ch0, p_) == "self.single_item")
+                if not inv:
+                    # the decision may be a value of its own (`let braces_required = match (*has_attr, num_items) { .. }`): what matters is that with
+                    # attributes written and two items announced no way out of complete_header skips the opening brace
+                    hidx = [p2[1][-1][1] for i2, j2, p2_, rv2, l2 in ch0.assigns() for p2 in [rv2[2] if rv2[0] == "ref" else None]
+                            if p2 is not None and ch0.copy_root(["c", [p2[0], []]]) == 1 and p2[1] and isinstance(p2[1][-1], list) and p2[1][-1][0] == "f" and len(p2[1][-1]) > 2 and p2[1][-1][2] == "has_attr"]
+                    nloc = [i2 for i2 in range(1, ch0.argc + 1) if ch0.var_name(i2) == "num_items"]
+                    opens = braces_open(ch0)
+                    if hidx and nloc and opens:
+                        reach_ = ch0.reachable_cp([0], avoid=opens, assume={("field", 1, (hidx[0],)): True, nloc[0]: 2})
+                        oks_ = {i2 for i2, j2, p2_, rv2, l2 in ch0.assigns() if describe_rvalue(ch0, rv2).startswith("Result::Ok(")}
+                        inv = not (reach_ & oks_) and any(describe_rvalue(ch0, rv).startswith("Eq(num_items, 1)") or "num_items" in describe_rvalue(ch0, rv) for i, j, p_, rv, line in ch0.assigns() if describe_place(ch0, p_) == "self.single_item")
                 r.check(inv, "AttributePrinter/complete_header/many-items-after-attributes=>braces-open", where(ch0), "with attributes and more than one item the braces are opened when the header is completed, and single_item := (num_items == 1)",
                         "complete_header no longer opens the braces for several items after attributes (or single_item is not num_items == 1)")
                 dis = flag_edges(wv, ("self.single_item",) if inv else ())
